@@ -602,7 +602,7 @@ def r1_5(repo: Repo) -> RuleResult:
 
 
 def r1_6(repo: Repo) -> RuleResult:
-    rr = RuleResult("R1.6", "dense results allocated on the transform path have a fitted column extent", floor=3)
+    rr = RuleResult("R1.6", "dense results allocated on the transform path have a fitted column extent", floor=2)
     allocs = {"numpy.ndarray", "numpy.empty", "numpy.zeros", "numpy.ones", "numpy.full"}
     seen: Set[Tuple[str, int]] = set()
     for c in exported_estimators(repo):
@@ -748,14 +748,27 @@ def r1_9(repo: Repo) -> RuleResult:
                                     "transform raises UnboundLocalError for the inputs that take that path instead of returning one row per item")
 
 
-RULES = [r1_1, r1_2, r1_2b, r1_3, r1_4, r1_5, r1_6, r1_7, r1_8, r1_9]
+def r1_10(repo: Repo) -> RuleResult:
+    """HistogramVectorizer: a value that falls in no bin must be ignored, not counted in a column.  When counts are taken
+    through pd.cut's integer codes the no-bin code -1, used as a position, is the last column (C20's counting clause)."""
+    from .c20 import r20_2
+
+    rr = r20_2(repo)
+    rr.rule, rr.title, rr.floor = "R1.10", "histogram counts taken through bin codes exclude the no-bin code -1 (out-of-range values do not land in the last column)", 1
+    rr.instances = [i for i in rr.instances if i.construct == "counting"]
+    for i in rr.instances:
+        i.rule = "R1.10"
+    return rr
+
+
+RULES = [r1_1, r1_2, r1_2b, r1_3, r1_4, r1_5, r1_6, r1_7, r1_8, r1_9, r1_10]
 
 CLAIM = (
     "R1.1 every sparse matrix assembled from a coordinate/CSR triple on a transform path passes shape= whose column "
     "extent is over fitted state only (taint analysis from transform's arguments); R1.2 CSR row pointers advance by "
     "exactly the number of indices appended for the row; R1.3 each row loop terminates its row exactly once and has no "
     "loop-level continue/break/return; R1.4 every dictionary look-up in fitted vocabulary keyed by transform input is "
-    "guarded by an enumerated idiom; R1.5 out-of-range characters are mapped to code 0; R1.6 dense result buffers have one row per item and a fitted width; R1.7 the tree vectorizer labels its directional column blocks in the order it stacks them; R1.8 block / chunk loops skip an iteration only under an empty-block test; R1.9 definite assignment (CFG dataflow) on every transform path and the non-compiled helpers it reaches."
+    "guarded by an enumerated idiom; R1.5 out-of-range characters are mapped to code 0; R1.6 dense result buffers have one row per item and a fitted width; R1.7 the tree vectorizer labels its directional column blocks in the order it stacks them; R1.8 block / chunk loops skip an iteration only under an empty-block test; R1.9 definite assignment (CFG dataflow) on every transform path and the non-compiled helpers it reaches; R1.10 histogram counts taken through pd.cut codes exclude the no-bin code -1."
 )
 NOT_DECIDED = (
     "that each column keeps its meaning beyond shape and guarded look-up (code->column mapping is under C06/C16), row "
